@@ -20,6 +20,10 @@ def configs(tier):
     if tier == 'quick':
         add(spec('global', 'clenshaw-curtis', 2, 1, 2)); add(spec('global', 'gauss-legendre', 1, 1, 3)); add(spec('global', 'gauss-laguerre', 2, 1, 2, alpha=1.0)); add(spec('global', 'gauss-hermite', 1, 1, 3, alpha=0.0)); add(spec('global', 'gauss-chebyshev2', 1, 1, 2))
         add(spec('global', 'gauss-jacobi', 1, 1, 2, alpha=1.0, beta=2.0)); add(spec('sequence', 'rleja', 2, 2, 2)); add(spec('fourier', 'fourier', 1, 1, 1)); add(spec('localp', 'localp', 2, 1, 2, order=1), 0, 12); add(spec('wavelet', 'wavelet', 1, 1, 1, order=1), 0, 6)
+        # every rule with a branch of its own in the transform code (map, inverse map, Jacobian of differentiate, quadrature factor): the -odd twins and the parametrised families
+        for rule, a, b in (('gauss-hermite-odd', 1.0, None), ('gauss-laguerre-odd', 0.5, None), ('gauss-chebyshev1', None, None), ('gauss-chebyshev1-odd', None, None), ('gauss-chebyshev2-odd', None, None),
+                           ('gauss-gegenbauer', 0.5, None), ('gauss-gegenbauer-odd', 1.0, None), ('gauss-jacobi-odd', 0.5, 1.0), ('gauss-hermite', 2.0, None), ('gauss-legendre-odd', None, None), ('chebyshev-odd', None, None)):
+            add(spec('global', rule, 2 if 'hermite' in rule else 1, 1, 2, alpha=a, beta=b))
         add(spec('global', 'clenshaw-curtis', 2, 1, 3), 2); add(spec('sequence', 'rleja', 2, 2, 3), 2); add(spec('localp', 'localp', 2, 1, 3, order=1), 2); add(spec('global', 'gauss-legendre', 1, 1, 3), 2); add(spec('wavelet', 'wavelet', 1, 2, 2, order=1), 2); add(spec('fourier', 'fourier', 1, 1, 1), 2)   # conformal map composed with a linear transform
         add(spec('global', 'clenshaw-curtis', 2, 1, 1), 1, 40, strategy='tree'); add(spec('global', 'gauss-laguerre', 1, 1, 1), 1, 12, strategy='tree'); add(spec('fourier', 'fourier', 1, 1, 1), 1, 12, strategy='tree')
     else:
